@@ -41,7 +41,7 @@ def _outside(net, path):
     return digest(sorted((e.uid, json.dumps(e.to_json, sort_keys=True, default=str)) for e in net.nodes() if e.uid not in on))
 
 
-def _one_run(spans, rng, power_mode, fiber_type='SSMF', star=False):
+def _one_run(spans, rng, power_mode, fiber_type='SSMF', star=False, autovoa=False):
     from gnpy.tools.json_io import network_from_json, load_equipments_and_configs
     from gnpy.tools.worker_utils import designed_network, transmission_simulation
     from gnpy.core.elements import Edfa
@@ -50,6 +50,9 @@ def _one_run(spans, rng, power_mode, fiber_type='SSMF', star=False):
     eq = load_equipments_and_configs(EX / 'eqpt_config.json', [], [])
     eq['SI']['default'].power_range_db = list(rng)
     eq['Span']['default'].power_mode = power_mode
+    if autovoa:                       # library option out_voa_auto on every amplifier model (no shipped library uses it)
+        for a in eq['Edfa'].values():
+            a.out_voa_auto = True
     sites = [chr(65 + i) for i in range(len(spans) + 1)]
     if star:
         js, dest = star_json(spans), 'trx C'
@@ -67,19 +70,19 @@ def _one_run(spans, rng, power_mode, fiber_type='SSMF', star=False):
     for p, pr in zip(powers, props):
         amps = [e for e in pr if isinstance(e, Edfa)]
         steps.append(dict(dp=udb(float(p) - pref),
-                          amps=[dict(gain=udb(e.effective_gain), dp=udb(e.delta_p),
+                          amps=[dict(gain=udb(e.effective_gain), dp=udb(e.delta_p), voa=udb(e.out_voa or 0),
                                      out=udb(float(np.mean(e.pch_out_dbm)))) for e in amps],
                           gsnr=udb(float(np.mean(pr[-1].snr_01nm)))))
     return dict(range=[udb(x) for x in rng], powers=[udb(float(p)) for p in powers], steps=steps,
                 outside0=out0, outside1=out1), udb(pref)
 
 
-def record_case(name, spans, power_mode, ranges, fiber_type='SSMF', star=False):
+def record_case(name, spans, power_mode, ranges, fiber_type='SSMF', star=False, autovoa=False):
     sim0 = sim_digest()
-    nominal, pref = _one_run(spans, [0, 0, 1], power_mode, fiber_type, star)
+    nominal, pref = _one_run(spans, [0, 0, 1], power_mode, fiber_type, star, autovoa)
     runs = []
     for rng in ranges:
-        run, _ = _one_run(spans, rng, power_mode, fiber_type, star)
+        run, _ = _one_run(spans, rng, power_mode, fiber_type, star, autovoa)
         runs.append(run)
     return dict(name=name, mode=1 if power_mode else 0, pref=pref, nominal=nominal['steps'][0], runs=runs,
                 sim0=sim0, sim1=sim_digest())
@@ -122,6 +125,10 @@ def run(chk, kind='B3|sweep'):
             if chk.tier == 'thorough' or k == 0:
                 cases.append(record_case(f'line-{"-".join(map(str, spans))}-gain', spans, False, [RANGES[0]]))
         cases.append(record_case('star-60-90-40-power', [60, 90, 40], True, [RANGES[0], RANGES[1]], star=True))
+        # amplifier models that optimise their output VOA: every step of the sweep designs the same amplifiers again
+        for spans in LINES[chk.tier][:2 if chk.tier == 'thorough' else 1]:
+            cases.append(record_case(f'line-{"-".join(map(str, spans))}-power-autovoa', spans, True,
+                                     [RANGES[1]] if chk.tier == 'quick' else [RANGES[0], RANGES[1]], autovoa=True))
         if chk.tier == 'thorough':
             for k in range(4):
                 spans = [rng.randrange(15, 150) for _ in range(rng.randrange(1, 5))]
@@ -145,6 +152,8 @@ def run(chk, kind='B3|sweep'):
                 if len(r['steps']) > 1:
                     for s in r['steps']:
                         for a in s['amps']:
-                            worst = max(worst, abs(a['out'] - (c['pref'] + s['dp'] + a['dp'])))
+                            worst = max(worst, abs(a['out'] - (c['pref'] + s['dp'] + a['dp'] - a['voa'])))
     chk.cov['sweep_budget_worst_udb'] = worst
+    chk.cov['sweep_amplifier_steps_with_output_voa'] = sum(
+        1 for c in cases for r in c['runs'] for s in r['steps'] for a in s['amps'] if a['voa'] > 0)
     chk.cov['sweep_budget_tol_udb'] = 300000
